@@ -363,7 +363,18 @@ func judgeLogStructure(c *Ctx, path, lock string, ops []fsOp, wit map[string]int
 					list = append(list, strconv.Itoa(len(all)+r.Intn(5)))
 					continue
 				}
+				if !byOff && r.Intn(3) == 0 {
+					// an id that no entry carries and that reads like a position on the board (the operator
+					// forgot use_offset, or pasted ids of another board): an id list drops entries by id only
+					list = append(list, strconv.Itoa(p))
+					c.Add("ignore_lists_by_id_naming_a_position", 1)
+					continue
+				}
 				ign[p] = true
+				if byOff && r.Intn(4) == 0 {
+					list = append(list, fmt.Sprintf("%03d", p)) // an offset typed with leading zeros
+					continue
+				}
 				if byOff {
 					list = append(list, strconv.Itoa(p))
 				} else {
